@@ -427,7 +427,7 @@ func cmdCheck(repo, verif, prop, tier, only string) int {
 		}
 		for _, p := range insts {
 			h := &HarnessRun{Name: hs.Fn, Pkg: modulePath + "/" + hs.Pkg, Mode: parseMode(hs.Mode), Params: p, Tier: tier,
-				timeoutMS: hs.TimeoutMS, stepLimit: hs.StepLimit, maxPaths: hs.MaxPaths, noIfConv: hs.NoIfConv, maxConcretize: hs.MaxConcretize}
+				timeoutMS: hs.TimeoutMS, stepLimit: hs.StepLimit, maxPaths: hs.MaxPaths, maxWallS: hs.MaxWallS, noIfConv: hs.NoIfConv, maxConcretize: hs.MaxConcretize}
 			if tier == "thorough" && h.timeoutMS != 0 {
 				h.timeoutMS *= 3
 			}
